@@ -16,9 +16,10 @@ def parseTurn (s : String) : Option Turn :=
   | e :: d :: flags =>
     match e.toNat?, parseEnd d with
     | some e, some d =>
-      if flags.all (fun f => f = "bad" || f = "brk" || f = "cap") then
+      if flags.all (fun f => ["bad", "brk", "cap", "unenc", "xok", "xerr"].contains f) then
         some { emits := e, «end» := d, bad := flags.contains "bad", brk := flags.contains "brk",
-               capped := flags.contains "cap" }
+               capped := flags.contains "cap", unenc := flags.contains "unenc",
+               extIn := if flags.contains "xerr" then .err else if flags.contains "xok" then .ok else .none }
       else none
     | _, _ => none
   | _ => none
@@ -55,18 +56,25 @@ def step (_ : Unit) (ws : List String) : Unit × String :=
     match knownTransport tr, parseExtMode mode, kv "r=" r, kv "w=" w with
     | true, some m, some r, some w => ((), report (.unaryExt m { r := r, e := 0, c := 0, w := w }))
     | _, _, _, _ => ((), "bad-op")
-  | ["stream", tr, k, w, shm, e, c, ts] =>
-    match knownTransport tr, parseWire w, shm.toNat?, kv "e=" e, kv "c=" c, parseTurns ts with
-    | true, some w, some _, some e, some c, some ts =>
+  | ["unaryin", tr, ok, r, w, x] =>
+    match knownTransport tr, kv "r=" r, kv "w=" w, kv "x=" x with
+    | true, some r, some w, some x =>
+      if ok = "ok" then ((), report (.unaryIn true { r := r, e := 0, c := 0, w := w, x := x }))
+      else if ok = "err" then ((), report (.unaryIn false { r := r, e := 0, c := 0, w := w, x := x }))
+      else ((), "bad-op")
+    | _, _, _, _ => ((), "bad-op")
+  | ["stream", tr, k, w, shm, e, c, x, ts] =>
+    match knownTransport tr, parseWire w, shm.toNat?, kv "e=" e, kv "c=" c, kv "x=" x, parseTurns ts with
+    | true, some w, some _, some e, some c, some x, some ts =>
       -- over HTTP the server keeps calling Produce until the producer finishes (the scripted
       -- handler finishes once its script is used up); over a pipe the client's ticks bound it
       let ts := if (k = "prod" || k = "prodh") && !(tr = "pipe" || tr = "pipex")
         then ts ++ [{ emits := 0, «end» := .fin, bad := false }] else ts
       -- prodh: a producer with a stream header (serialized and released before the first turn)
-      if k = "prod" || k = "prodh" then ((), report (.stream .prod w { r := 0, e := e, c := c } ts))
-      else if k = "xch" then ((), report (.stream .xch w { r := 0, e := e, c := c } ts))
+      if k = "prod" || k = "prodh" then ((), report (.stream .prod w { r := 0, e := e, c := c, x := x } ts))
+      else if k = "xch" then ((), report (.stream .xch w { r := 0, e := e, c := c, x := x } ts))
       else ((), "bad-op")
-    | _, _, _, _, _, _ => ((), "bad-op")
+    | _, _, _, _, _, _, _ => ((), "bad-op")
   | ["castin", w, bad, e, c] =>
     match parseWire w, bad.toNat?, kv "e=" e, kv "c=" c with
     | some w, some b, some e, some c => ((), report (.castInput w (b != 0) { r := 0, e := e, c := c }))
